@@ -168,9 +168,12 @@ def _extract_omega_delta_phi(
                 pchip = PCHIP1D(t_grid, signal.real)
                 data_mid[:, q_pos] = pchip(t_mid)
             if name == "amp":
-                data_mid[-1, q_pos] = torch.where(
-                    data_mid[-1, q_pos] > 0,
-                    data_mid[-1, q_pos],
+                # Midpoints after the last Pulser sample are extrapolated and can
+                # undershoot: the amplitude is never negative. (Several steps can lie
+                # there, when dt < 1 or an evaluation time falls in the last ns.)
+                data_mid[:, q_pos] = torch.where(
+                    data_mid[:, q_pos] > 0,
+                    data_mid[:, q_pos],
                     0,
                 )
 
